@@ -11,6 +11,7 @@ def register(reg):
     register_bbox(reg)
     register_xy_extents(reg)
     register_mask_mode(reg)
+    register_edges(reg)
     reg.record('BoundingBox', {'ixmin': 'int', 'ixmax': 'int', 'iymin': 'int', 'iymax': 'int'})
 
     reg.add(Contract(
@@ -425,3 +426,28 @@ def register_mask_mode(reg):
                       "if mode == 'center':\n            use_exact = 0\n            subpixels = 2"),
                      ('subpixels <= 0', 'subpixels < 0')],
         ))
+
+
+def register_edges(reg):
+    """The pixel edges handed to the overlap kernels: the bounding box's outer edges (pixel i spans
+    [i - 1/2, i + 1/2]) relative to the aperture centre, one tuple per position."""
+    P = 'photutils/aperture/core.py::PixelAperture'
+    reg.record('PixelApertureEdges', {'_positions': ('arr', 2, 'real'),
+                                      '_bbox': ('seq', 'BoundingBox')})
+    reg.add(Contract(
+        target=f'{P}._centered_edges', props=['C01'], kind='property',
+        params={'self': 'PixelApertureEdges'},
+        requires=['self._positions.shape[1] == 2', 'len(self._bbox) == self._positions.shape[0]'],
+        ensures=[
+            ('one-tuple-per-position', 'len(result) == self._positions.shape[0]'),
+            ('box-edges-relative-to-the-centre',
+             'forall(lambda k: result[k] == ('
+             'self._bbox[k].ixmin - 0.5 - self._positions[k, 0], '
+             'self._bbox[k].ixmax - 0.5 - self._positions[k, 0], '
+             'self._bbox[k].iymin - 0.5 - self._positions[k, 1], '
+             'self._bbox[k].iymax - 0.5 - self._positions[k, 1]), (0, len(result)))'),
+        ],
+        mutants=[('ymin = bbox.iymin - 0.5 - position[1]', 'ymin = bbox.iymin - 0.5 - position[0]'),
+                 ('xmax = bbox.ixmax - 0.5 - position[0]', 'xmax = bbox.ixmax + 0.5 - position[0]'),
+                 ('edges.append((xmin, xmax, ymin, ymax))', 'edges.append((ymin, ymax, xmin, xmax))')],
+    ))
